@@ -155,3 +155,19 @@ Definition C15_length_code_stmt : Prop :=
 Definition C15_length_model_stmt : Prop :=
   forall d f, (d = 2 \/ d = 3)%nat -> forall n,
     seglen d f 0 1 <= polylen d f n /\ polylen d f n <= polylen d f (2 * n + 1).
+
+(** the control polygon bounds the discretized length, for every step count *)
+Definition V := nat -> R.
+Definition nrm (d : nat) (v : V) : R := sqrt (fold_right Rplus 0 (map (fun j => v j * v j) (seq 0 d))).
+Definition vsub (u v : V) : V := fun j => u j - v j.
+(** control polygon length of a curve of degree 2 or 3 with control points [P i] *)
+Definition cpl (deg d : nat) (P : nat -> V) : R :=
+  match deg with
+  | 2%nat => nrm d (vsub (P 1%nat) (P 0%nat)) + nrm d (vsub (P 2%nat) (P 1%nat))
+  | _ => nrm d (vsub (P 1%nat) (P 0%nat)) + nrm d (vsub (P 2%nat) (P 1%nat)) + nrm d (vsub (P 3%nat) (P 2%nat))
+  end.
+Definition curve (deg : nat) (P : nat -> V) : R -> V := fun t j => bern deg (fun i k => P i k) t j.
+
+Definition C15_length_polygon_stmt : Prop :=
+  forall deg d, (deg = 2 \/ deg = 3)%nat -> (d = 2 \/ d = 3)%nat -> forall (P : nat -> V) n,
+    polylen d (curve deg P) n <= cpl deg d P.
